@@ -352,6 +352,38 @@ func H_C11_ref() {
 	vf.Assert(vf.EqualValues(got, want), "updated document differs from the reference semantics")
 }
 
+// $push / $addToSet with $each: elements are appended in order; $addToSet skips every value that is
+// already in the array or was added before it by the same update
+func H_C11_each() {
+	n := vf.Choice("n", 3)
+	arr := make(bson.A, n)
+	for i := range arr {
+		arr[i] = vf.Value("e"+string(rune('0'+i)), "", 0, vf.TInt32|vf.TString, 0)
+	}
+	doc := bson.D{{Key: "a", Value: arr}}
+	m := vf.Choice("m", 4)
+	each := make(bson.A, m)
+	for i := range each {
+		each[i] = vf.Value("x"+string(rune('0'+i)), "", 0, vf.TInt32|vf.TInt64|vf.TString, 0)
+	}
+	set := vf.Bool("addToSet")
+	op := "$push"
+	if set {
+		op = "$addToSet"
+	}
+	want := append(bson.A{}, arr...)
+	for _, x := range each {
+		if set && contains(want, x) {
+			continue
+		}
+		want = append(want, x)
+	}
+	got, err := apply1(doc, op, "a", bson.D{{Key: "$each", Value: each}})
+	vf.Assert(err == nil, "$each update failed")
+	vf.Observe("len", int64(len(want)))
+	vf.Assert(vf.EqualValues(bsonkit.Get(&got, "a"), want), "$each result differs from the reference semantics")
+}
+
 // idempotence: applying $set, $unset, $min, $max, $addToSet, $pull, $pullAll twice changes nothing more;
 // fields that the path does not address keep value and relative order
 func H_C11_idem() {
